@@ -619,6 +619,18 @@ func same(a, b reflect.Value, path string) error {
 }
 
 func renderValue(c c10Case, rv reflect.Value, targetPath string) (string, namer.ImportTracker, error) {
+	return renderSnippet(c, valueSnippet(c, rv), targetPath)
+}
+
+func valueSnippet(c c10Case, rv reflect.Value) snippet.Snippet {
+	if c.Via == "format" {
+		return snippet.Sprintf("%v", rv.Interface())
+	}
+	return snippet.Value(rv.Interface())
+}
+
+// renderSnippet renders sn through a fresh writer (own tracker) whose file belongs to targetPath.
+func renderSnippet(c c10Case, sn snippet.Snippet, targetPath string) (string, namer.ImportTracker, error) {
 	tracker := namer.NewDefaultImportTracker()
 	if c.Target == "clash" {
 		for _, p := range clashSeeds {
@@ -627,12 +639,6 @@ func renderValue(c c10Case, rv reflect.Value, targetPath string) (string, namer.
 	}
 	buf := &bytes.Buffer{}
 	w := gengo.NewSnippetWriter(buf, namer.NameSystems{"raw": namer.NewRawNamer(targetPath, tracker)})
-	var sn snippet.Snippet
-	if c.Via == "format" {
-		sn = snippet.Sprintf("%v", rv.Interface())
-	} else {
-		sn = snippet.Value(rv.Interface())
-	}
 	if p := ev.Panics(func() { w.Render(sn) }); p != nil {
 		return "", nil, fmt.Errorf("rendering a %s panics: %v", c.T.key(), p)
 	}
@@ -659,6 +665,28 @@ func oracleC10(c c10Case) error {
 		text2, _, err := renderValue(c, orig, targetPath)
 		if err != nil || text2 != text {
 			return fmt.Errorf("a %s renders as %q and then as %q (%v)", c.T.key(), text, text2, err)
+		}
+	}
+	// one snippet value rendered into two files: the second file (this target) must get the same text and imports as from a fresh snippet
+	{
+		shared := valueSnippet(c, orig)
+		firstTarget := "example.com/probe/first"
+		for _, k := range []string{"alpha", "beta", "gamma", "left", "delta"} {
+			if mentions(c.T, k) && fxPaths[k] != targetPath {
+				firstTarget = fxPaths[k] // the first file lies in a package the value mentions: its types are local there
+				break
+			}
+		}
+		if _, _, err := renderSnippet(c, shared, firstTarget); err != nil {
+			return err
+		}
+		text3, tracker3, err := renderSnippet(c, shared, targetPath)
+		if err != nil {
+			return err
+		}
+		if text3 != text || !reflect.DeepEqual(tracker3.Imports(), tracker.Imports()) {
+			return fmt.Errorf("a %s snippet rendered into a file of %s after it was rendered into a file of %s gives %q with imports %v; a fresh snippet gives %q with imports %v",
+				c.T.key(), targetPath, firstTarget, text3, tracker3.Imports(), text, tracker.Imports())
 		}
 	}
 	// probe: package <target>, the tracker's imports, the harness's own aliases, var V <T> = <literal>
